@@ -1111,9 +1111,9 @@ def run_attr(case, c):
                                                                         ('fits' if value[0] * value[1] == n else 'mismatch'))
         key = 'C15:attr:size:assign-%s:' % tag
         sub = {'A': describe(mA0), 'size': describe(value)}
-        mexc = None
+        mexc, mres = None, None
         try:
-            mA.set_size(value)
+            mres = mA.set_size(value)
         except R.Refused as e:
             mexc = e
         iexc = None
@@ -1122,6 +1122,9 @@ def run_attr(case, c):
         except Exception as e:
             iexc = e
         c.n += 1
+        if mres is R.UNSPEC:
+            c.out('unspecified')
+            continue
         if mexc is not None:
             c.out('refused')
             if iexc is None:
@@ -1235,3 +1238,366 @@ def run_func3(case, c):
         for d in atoms:
             for kind in EFUNS:
                 check_efun(c, kind, [a, b, d])
+
+
+# =========================================================================== hist: BFS over aliased update histories
+TARGETS = ('A', 'B', 'C')
+
+
+def hist_alphabet(tc, shape, which):
+    """actions = (label, kind, payload).  kind 'iop': (target, op, operand label); 'set': (target, index descr or
+    pair, value label); 'aug': indexed augmented assignment; 'size': (target, new size)."""
+    r, k = shape
+    n = r * k
+    operands = {
+        'num-i': 2, 'num-d': 0.5, 'num-z': 1j,
+        'm11-i': R.Dense('i', (1, 1), [3]), 'm11-d': R.Dense('d', (1, 1), [1.5]), 'm11-z': R.Dense('z', (1, 1), [2j]),
+        'mat-i': R.Dense('i', shape, [j + 1 for j in range(n)]),
+        'mat-d': R.Dense('d', shape, [j + 0.5 for j in range(n)]),
+        'mat-z': R.Dense('z', shape, [complex(1, j) for j in range(n)]),
+        'mat-wrong': R.Dense(tc, (r + 1, k), [R.conv(1, tc)] * ((r + 1) * k)),
+        'col-i': R.Dense('i', (r, 1), [-(j + 5) for j in range(r)]),
+        'list-d': [0.25 * (j + 1) for j in range((n + 1) // 2)],
+    }
+    acts = []
+    if which == 'full':
+        opnds = ['num-i', 'num-d', 'num-z', 'm11-i', 'm11-d', 'm11-z', 'mat-i', 'mat-d', 'mat-z']
+        targets = TARGETS
+    else:
+        opnds = ['num-i', 'num-d', 'm11-z', 'mat-' + tc]
+        targets = TARGETS
+    for t in targets:
+        for op in ('+', '-', '*', '/', '%'):
+            for o in opnds:
+                acts.append(('%s %s= %s' % (t, op, o), 'iop', (t, op, o)))
+        acts.append(('%s += mat-wrong' % t, 'iop', (t, '+', 'mat-wrong')))
+        sets = [(('int', 0), 'num-i'), (('int', -1), 'num-d'), ((('int', 1), ('slice', None, None, None)), 'num-z'),
+                ((('slice', None, None, None), ('int', 0)), 'col-i'), (('slice', None, None, 2), 'list-d'),
+                (('list', [0, -1]), 'm11-d'), (('int', 5), 'num-i')]
+        if which != 'full':
+            sets = sets[:5]
+        for idx, v in sets:
+            acts.append(('%s[%s] = %s' % (t, describe(idx), v), 'set', (t, idx, v)))
+        acts.append(('%s[::2] += 1' % t, 'aug', (t, ('slice', None, None, 2), 'num-i-one')))
+        acts.append(('%s.size = transposed' % t, 'size', (t, (k, r))))
+        if which == 'full':
+            acts.append(('%s.size = wrong' % t, 'size', (t, (r + 1, k))))
+    operands['num-i-one'] = 1
+    return acts, operands
+
+
+def _midx(idx):
+    if isinstance(idx, tuple) and isinstance(idx[0], tuple):
+        a, b = mk_index(idx[0]), mk_index(idx[1])
+        return (a[0], b[0]), (a[1], b[1])
+    return mk_index(idx)
+
+
+IOPF = dict(IOPS)
+
+
+class HistEnv(object):
+    """the three names of one configuration, on the model side and on the implementation side."""
+
+    def __init__(self, mA0, iops=None):
+        from cvxopt import matrix
+        self.iops = iops
+        self.m = {'A': mA0.copy()}
+        self.m['B'] = self.m['A']
+        self.m['C'] = self.m['A'].copy()
+        A = to_impl(mA0)
+        self.i = {'A': A, 'B': A, 'C': +A}
+        self.addr0 = {'A': bufaddr(A), 'C': bufaddr(self.i['C'])}
+        self.id0 = {'A': id(A), 'C': id(self.i['C'])}
+
+    def observe(self):
+        """complete observable implementation state, canonicalised (no absolute addresses)."""
+        from mc import cvx
+        i = self.i
+        names = []
+        for nme in TARGETS:
+            o = i[nme]
+            names.append((nme, type(o).__name__, getattr(o, 'typecode', None), tuple(getattr(o, 'size', ())),
+                          cvx.raw(o) if type(o).__name__ == 'matrix' else repr(o)))
+        ident = (i['A'] is i['B'], i['A'] is i['C'], i['B'] is i['C'],
+                 bufaddr(i['A']) == bufaddr(i['B']), bufaddr(i['A']) == bufaddr(i['C']),
+                 id(i['A']) == self.id0['A'], id(i['B']) == self.id0['A'], id(i['C']) == self.id0['C'],
+                 bufaddr(i['A']) == self.addr0['A'] or not len(i['A']),
+                 bufaddr(i['C']) == self.addr0['C'] or not len(i['C']))
+        return (tuple(names), ident)
+
+    def model_key(self):
+        a, k = self.m['A'], self.m['C']
+        return (a.tc, a.size, tuple(repr(v) for v in a.flat), k.tc, k.size, tuple(repr(v) for v in k.flat))
+
+
+def hist_apply(env, act, operands):
+    """apply one action to model and implementation.  -> (model outcome, impl exception or None, impl result)."""
+    label, kind, pl = act
+    t = pl[0]
+    mt, it = env.m[t], env.i[t]
+    mexc, mres, iexc = None, None, None
+    if kind == 'iop':
+        _, op, o = pl
+        mo = operands[o]
+        io = env.iops[o]
+        try:
+            mres = R.iop(op, mt, mo)
+        except R.Refused as e:
+            mexc = e
+        try:
+            r = IOPF[op](it, io)
+            env.i[t] = r                      # Python rebinds the name to whatever the in-place slot returned
+        except Exception as e:
+            iexc = e
+    elif kind == 'set':
+        _, idx, v = pl
+        mi, ii = _midx(idx)
+        mv = operands[v]
+        try:
+            mres = mt.setitem(mi, mv)
+        except R.Refused as e:
+            mexc = e
+        try:
+            it[ii] = env.iops[v]
+        except Exception as e:
+            iexc = e
+    elif kind == 'aug':
+        _, idx, v = pl
+        mi, ii = _midx(idx)
+        mv = operands[v]
+        try:
+            g = mt.getitem(mi)
+            g2 = R.binop('+', g, mv)          # g is a fresh matrix: g += v is g + v
+            mres = mt.setitem(mi, g2)
+        except R.Refused as e:
+            mexc = e
+        try:
+            it[ii] += env.iops[v]
+        except Exception as e:
+            iexc = e
+    elif kind == 'size':
+        _, sz = pl
+        try:
+            mres = mt.set_size(sz)
+        except R.Refused as e:
+            mexc = e
+        try:
+            it.size = sz
+        except Exception as e:
+            iexc = e
+    return mres, mexc, iexc
+
+
+def run_hist(case, c):
+    tc, shape, pal, depth = case['tc'], tuple(case['shape']), case['pal'], case['depth']
+    acts, operands = hist_alphabet(tc, shape, case['alphabet'])
+    mA0 = mdense(tc, shape, pal)
+    cfg = 'tc=%s,shape=%dx%d' % (tc, shape[0], shape[1])
+
+    from mc import cvx
+    iops = dict((k, to_impl(v)) for k, v in operands.items())
+    iops_before = dict((k, cvx.image(v)) for k, v in iops.items())
+
+    def replay(h):
+        env = HistEnv(mA0, iops)
+        for ai in h:
+            hist_apply(env, acts[ai], operands)
+        return env
+
+    def compare(env, key, sub):
+        """implementation state vs model state on every name."""
+        ok = True
+        for nme, mref in (('A', env.m['A']), ('B', env.m['A']), ('C', env.m['C'])):
+            bad = cmp_result(mref, env.i[nme], TOL, c)
+            if bad:
+                c.v(key + 'state-%s-%s' % (nme, bad[0]), 'name %s: %s' % (nme, bad[1]), sub)
+                ok = False
+        return ok
+
+    env0 = HistEnv(mA0, iops)
+    if not compare(env0, 'C15:hist:%s:initial:' % cfg, {'A': describe(mA0)}):
+        return
+    ob0 = env0.observe()
+    if ob0[1] != (True, False, False, True, False, True, True, True, True, True) and len(mA0):
+        c.v('C15:hist:initial:alias-pattern', 'B = A / C = +A do not give alias / copy: %r' % (ob0[1],), None)
+        return
+    seen = {(env0.model_key(), ob0): ()}
+    frontier = [()]
+    c.states = 1
+    for d in range(depth):
+        nxt = []
+        for h in frontier:
+            for ai, act in enumerate(acts):
+                env = replay(h)
+                pre = env.observe()
+                if (env.model_key(), pre) not in seen or seen[(env.model_key(), pre)] != h:
+                    if (env.model_key(), pre) not in seen:
+                        c.v('C15:hist:replay-diverged', 'replaying a recorded history gave a different state', {'history': [acts[k][0] for k in h]})
+                        return
+                label, kind, pl = act
+                t = pl[0]
+                tc_pre, id_pre, addr_pre = env.i[t].typecode, id(env.i[t]), bufaddr(env.i[t])
+                mres, mexc, iexc = hist_apply(env, act, operands)
+                c.transitions += 1
+                c.n += 1
+                if d == depth - 1:
+                    c.traces += 1
+                post = env.observe()
+                sub = {'config': cfg, 'history': [acts[k][0] for k in h], 'action': label, 'A0': describe(mA0)}
+                akey = 'C15:hist:%s:' % _act_pattern(act, env, operands, tc_pre)
+                if mres is R.UNSPEC:
+                    c.out('hist-unspecified')
+                    continue
+                if mexc is not None:
+                    c.out('hist-refused')
+                    if iexc is None:
+                        c.v(akey + 'no-exception', 'manual excludes this step (%s) but it was performed; %s now %s (was typecode %s)'
+                            % (mexc, t, _show(env.i[t]), tc_pre), sub)
+                    elif post != pre:
+                        c.v(akey + 'modified-on-refusal', 'refused step (%s) changed the observable state' % type(iexc).__name__, sub)
+                    continue                      # refused: self-loop, nothing new to expand
+                if iexc is not None:
+                    c.v(akey + 'unexpected-' + type(iexc).__name__, 'documented step raised %s: %s' % (type(iexc).__name__, iexc), sub)
+                    continue
+                good = True
+                if id(env.i[t]) != id_pre:
+                    c.v(akey + 'new-object', 'in-place step rebound %s to a new object' % t, sub)
+                    good = False
+                elif env.i[t].typecode != tc_pre or (len(env.i[t]) and bufaddr(env.i[t]) != addr_pre):
+                    c.v(akey + 'typecode-or-buffer-changed', 'in-place step changed typecode/buffer of %s' % t, sub)
+                    good = False
+                if good and post[1] != pre[1]:
+                    c.v(akey + 'alias-pattern-changed', 'alias/identity pattern changed: %r -> %r' % (pre[1], post[1]), sub)
+                    good = False
+                if good:
+                    good = compare(env, akey, sub)
+                if not good:
+                    continue                      # violating transitions are reported, not expanded
+                c.out('hist-agree')
+                c.nontrivial += 1
+                k = (env.model_key(), post)
+                if k not in seen:
+                    seen[k] = h + (ai,)
+                    c.states += 1
+                    # differential: the state reached through this history == the state constructed from scratch
+                    scratch = to_impl(env.m['A'])
+                    if cmp_result(env.m['A'], scratch, 0.0, None) is not None:
+                        c.v('C15:hist:scratch-construction', 'matrix constructed from the model state differs from the model', sub)
+                    nxt.append(h + (ai,))
+        frontier = nxt
+    if dict((k, cvx.image(v)) for k, v in iops.items()) != iops_before:
+        c.v('C15:hist:%s:operand-modified' % cfg, 'a right-hand operand object changed during the exploration', None)
+    c.out('hist-depth-%d-frontier' % depth, len(frontier))
+
+
+def _act_pattern(act, env, operands, tc_pre):
+    label, kind, pl = act
+    t = 'alias' if pl[0] in ('A', 'B') else 'copy'
+    if kind == 'iop':
+        return 'iop:%s=:%s=%s:b=%s' % (pl[1], t, tc_pre, pl[2])
+    if kind == 'set':
+        idx = pl[1]
+        ik = ','.join(ikind(x) for x in idx) if isinstance(idx[0], tuple) else ikind(idx)
+        return 'set:%s:%s=%s:rhs=%s' % (ik, t, tc_pre, pl[2])
+    if kind == 'aug':
+        return 'aug:%s=%s' % (t, tc_pre)
+    return 'size:%s=%s' % (t, tc_pre)
+
+
+# =========================================================================== enumeration of cases
+def cases(tier, seed, flavour):
+    pal = seed % 4
+    asan_q = (flavour == 'asan' and tier == 'quick')
+    shapes = ASAN_SHAPES if asan_q else SHAPES
+    mats = [(tc, list(s)) for s in shapes for tc in TCS]
+    shl = [list(s) for s in shapes]
+    # ---- construction
+    yield {'part': 'cons', 'form': 'number', 'pal': pal}
+    for n in ((0, 2, 6) if asan_q else range(7)):
+        yield {'part': 'cons', 'form': 'seq', 'n': n, 'pal': pal}
+    for s in shl:
+        yield {'part': 'cons', 'form': 'matrix', 'shape': s, 'pal': pal}
+    for s in shl:
+        yield {'part': 'cons', 'form': 'sparse', 'shape': s, 'pal': pal}
+    for lo in range(0, 200, 25):
+        yield {'part': 'cons', 'form': 'buffer', 'lo': lo, 'hi': lo + 25, 'pal': pal}
+    ntier = 'thorough' if tier == 'thorough' else 'quick'
+    na = 11 if ntier == 'thorough' else 8
+    ncols = 1 + na + na * na
+    for first in range(ncols):
+        if asan_q and first % 6:
+            continue
+        yield {'part': 'cons', 'form': 'nested', 'tier': ntier, 'first': first, 'pal': pal}
+    # ---- attributes, methods, built-ins
+    for tc, s in mats:
+        yield {'part': 'attr', 'tc': tc, 'shape': s, 'pal': pal}
+    # ---- one-argument indexing
+    for tc, s in mats:
+        for nm in (('a-int', 'slice-full', 'a-list', 'a-imat') if asan_q else ('int', 'slice-full', 'list-full', 'imat-full')):
+            yield {'part': 'get1', 'tc': tc, 'shape': s, 'pal': pal, 'set': nm}
+    # ---- two-argument indexing
+    pre = 'a-' if asan_q else ('t2-' if tier == 'thorough' else 'q2-')
+    sets2 = [pre + k for k in KINDS]
+    for tc, s in mats:
+        for nm in sets2:
+            yield {'part': 'get2', 'tc': tc, 'shape': s, 'pal': pal, 'rowset': nm, 'colsets': sets2, 'extra': nm.endswith('int')}
+    # ---- one-argument assignment
+    red = tier != 'thorough'
+    for tc, s in mats:
+        for nm in (('a-int', 'a-slice', 'a-list', 'a-imat') if asan_q else ('s1-int', 's1-slice', 's1-list', 's1-imat')):
+            yield {'part': 'set1', 'tc': tc, 'shape': s, 'pal': pal, 'set': nm, 'reduced': asan_q}
+    # ---- two-argument assignment
+    pre = 'st-' if tier == 'thorough' else 'sq-'
+    ssets = [pre + k for k in KINDS]
+    for tc, s in mats:
+        for nm in ssets:
+            yield {'part': 'set2', 'tc': tc, 'shape': s, 'pal': pal, 'rowset': nm, 'colsets': ssets, 'reduced': red}
+    # ---- operators, in-place operators, functions
+    for tc, s in mats:
+        yield {'part': 'arith', 'tc': tc, 'shape': s, 'pal': pal, 'shapes': shl}
+    for tc, s in mats:
+        yield {'part': 'inplace', 'tc': tc, 'shape': s, 'pal': pal, 'shapes': shl}
+    for k, (tc, s) in enumerate(mats):
+        yield {'part': 'func', 'tc': tc, 'shape': s, 'pal': pal, 'shapes': shl, 'numbers': k < 3}
+    for first in range(10):
+        yield {'part': 'func3', 'first': first, 'pal': pal}
+    # ---- hist: one case = one initial configuration, inner BFS
+    for shape in ([2, 2], [2, 3]):
+        for tc in TCS:
+            if asan_q:
+                plans = [('core', 2)]
+            elif tier == 'thorough':
+                plans = [('full', 3), ('core', 4)]
+            else:
+                plans = [('full', 2), ('core', 3)]
+            for alphabet, depth in plans:
+                yield {'part': 'hist', 'tc': tc, 'shape': shape, 'pal': pal, 'depth': depth, 'alphabet': alphabet}
+
+
+def crash_key(case):
+    k = case.get('part', '?')
+    for f in ('form', 'set', 'rowset', 'tc', 'alphabet'):
+        if f in case:
+            k += ':%s' % case[f]
+    return k
+
+
+RUNNERS = {'cons': run_cons, 'attr': run_attr, 'get1': run_get1, 'get2': run_get2, 'set1': run_set1, 'set2': run_set2,
+           'arith': run_arith, 'inplace': run_inplace, 'func': run_func, 'func3': run_func3, 'hist': run_hist}
+
+
+def run(case):
+    from mc import cvx           # asserts that the staged working-tree build is imported
+    c = Ctx()
+    if not layout_ok():
+        c.v('harness:matrix-layout', 'cvxopt matrix object layout is not the one bufaddr() assumes', None)
+        return c.result()
+    try:
+        RUNNERS[case['part']](case, c)
+    except Exception:
+        import traceback
+        c.v('C15:%s:harness-exception' % case['part'], traceback.format_exc()[-1500:], None)
+    r = c.result()
+    r['outcomes'] = dict(('%s:%s' % (case['part'], k), v) for k, v in r['outcomes'].items())
+    return r
